@@ -23,10 +23,12 @@ for n in SIZES:
 w('''@lib ~to_ullong$ = BITS_VALUE
 @lib ~to_ulong$ = BITS_VALUE
 @lib ~Packing<true, ([\\w ]+)>::packSize = PACKSIZE_POD_\\1
-@lib ~Packing<true, ([\\w ]+)>::pack = PACK_POD_\\1
-@lib ~Packing<true, ([\\w ]+)>::unpack = UNPACK_POD_\\1
+@lib ~^append$ = STR_APPEND_N
+@instantiate ghost_c
+@lib ~Packing<true, ([\\w ]+)>::pack = PACK\\N_POD_\\1
+@lib ~Packing<true, ([\\w ]+)>::unpack = UNPACK\\N_POD_\\1
 @trusted Packing<true,T> (MemPacker.hpp) is memcpy of sizeof(T) bytes at buffer.data()+position on a little-endian machine, position += sizeof(T); std::bitset<N>(v) keeps the low N bits; to_ullong()/to_ulong() return them (N <= 64)
-@notcovered Packing<false,std::string> (char-array memcpy), Packing<false,time_point> (TimeService conversion), the Serializer class templates (vectors, maps, optionals, variants, pointers)
+@notcovered Packing<false,time_point> (TimeService conversion), the Serializer class templates (vectors, maps, optionals, variants, pointers)
 @prelude
 #define BITS_VALUE(b) ((b).bits)
 ''')
@@ -34,14 +36,73 @@ for n in SIZES:
     w('#define BITS%d_MAKE(v) ({ struct ghost_bits%d verif_b; verif_b.bits = ((unsigned long long)(v)) & ((1ull << %d) - 1ull); verif_b; })\n' % (n, n, n))
 for name, t, nb in PODS:
     w('#define PACKSIZE_POD_%s(x) ((void)(x), (c_ulong)%d)\n' % (name, nb))
-    w('#define PACK_POD_%s(x, buf, pos) do { unsigned long long verif_x = (unsigned long long)(%s)(x); '
+    w('#define PACK3_POD_%s(x, buf, pos) do { unsigned long long verif_x = (unsigned long long)(%s)(x); '
       '__CPROVER_assert(verif_thrown || ((pos) <= (buf).size && (buf).size - (pos) >= %d), "memcpy of a POD stays inside the buffer"); '
       % (name, t, nb) + ' '.join('(buf).data[(pos) + %d] = (char)((verif_x >> %d) & 0xff);' % (k, 8 * k) for k in range(nb)) +
       ' (pos) += %d; } while (0)\n' % nb)
-    w('#define UNPACK_POD_%s(x, buf, pos) do { unsigned long long verif_x = 0; '
+    w('#define UNPACK3_POD_%s(x, buf, pos) do { unsigned long long verif_x = 0; '
       '__CPROVER_assert(verif_thrown || ((pos) <= (buf).size && (buf).size - (pos) >= %d), "memcpy of a POD stays inside the buffer"); '
       % (name, nb) + ' '.join('verif_x |= ((unsigned long long)(unsigned char)(buf).data[(pos) + %d]) << %d;' % (k, 8 * k) for k in range(nb)) +
       ' (x) = (%s)verif_x; (pos) += %d; } while (0)\n' % (t, nb))
+w('''static unsigned long ghost_c;    /* an arbitrary character position */
+/* Packing<true,char>::pack(p, n, buffer, position): memcpy of n chars; stated at the ghost position */
+#define PACK4_POD_char(v, n, buf, pos) do { unsigned long verif_n = (n); __typeof__(buf) verif_nb; \\
+    __CPROVER_assert(verif_thrown || ((pos) <= (buf).size && (buf).size - (pos) >= verif_n), "memcpy of the characters stays inside the buffer"); \\
+    __CPROVER_assert(verif_thrown || verif_n <= (v).size, "memcpy reads inside the source string"); \\
+    __CPROVER_assume(verif_nb.size == (buf).size); \\
+    __CPROVER_assume(verif_nb.data[(pos) + ghost_c] == ((ghost_c < verif_n) ? (v).data[ghost_c] : (buf).data[(pos) + ghost_c])); \\
+    __CPROVER_assume(__CPROVER_forall { unsigned long verif_q; (verif_q < (pos)) ==> verif_nb.data[verif_q] == (buf).data[verif_q] }); \\
+    (buf) = verif_nb; (pos) += verif_n; } while (0)
+#define UNPACK4_POD_char(v, n, buf, pos) do { unsigned long verif_n = (n); __typeof__(v) verif_nv; \\
+    __CPROVER_assert(verif_thrown || ((pos) <= (buf).size && (buf).size - (pos) >= verif_n), "memcpy of the characters stays inside the buffer"); \\
+    __CPROVER_assert(verif_thrown || verif_n <= (v).size, "memcpy writes inside the destination array"); \\
+    __CPROVER_assume(verif_nv.size == (v).size); \\
+    __CPROVER_assume(verif_nv.data[ghost_c] == ((ghost_c < verif_n) ? (buf).data[(pos) + ghost_c] : (v).data[ghost_c])); \\
+    (v) = verif_nv; (pos) += verif_n; } while (0)
+/* the std::size_t stored little-endian at position p of the buffer */
+#define BYTE(buf, i) ((unsigned long)(unsigned char)(buf)->data[i])
+#define LENWORD(buf, p) (BYTE(buf, p) | (BYTE(buf, (p) + 1) << 8) | (BYTE(buf, (p) + 2) << 16) | (BYTE(buf, (p) + 3) << 24) | (BYTE(buf, (p) + 4) << 32) | (BYTE(buf, (p) + 5) << 40) | (BYTE(buf, (p) + 6) << 48) | (BYTE(buf, (p) + 7) << 56))
+/* std::string::append(p, n) */
+#define STR_APPEND_N(s, v, n) do { unsigned long verif_n = (n), verif_s0 = (s).size; __typeof__(s) verif_ns; \\
+    __CPROVER_assert(verif_thrown || verif_n <= (v).size, "append reads inside the source array"); \\
+    __CPROVER_assume(verif_ns.size == verif_s0 + verif_n); \\
+    __CPROVER_assume(verif_ns.data[verif_s0 + ghost_c] == ((ghost_c < verif_n) ? (v).data[ghost_c] : verif_ns.data[verif_s0 + ghost_c])); \\
+    (s) = verif_ns; } while (0)
+''')
+w('''@function str_packSize
+qual: ~Packing<false, std::__cxx11::basic_string<char.*> >::packSize$
+ensures header_plus_characters: \\result == 8 + data->size
+
+@function str_pack
+qual: ~Packing<false, std::__cxx11::basic_string<char.*> >::pack$
+inline: str_packSize
+requires: data->size <= 1000000000 && *position <= buffer->size && buffer->size - *position >= str_packSize(data)
+ensures advances_by_packSize: *position == \\old(*position) + str_packSize(data)
+assigns: *buffer, *position
+
+@function str_unpack
+qual: ~Packing<false, std::__cxx11::basic_string<char.*> >::unpack$
+requires: *position <= buffer->size && buffer->size - *position >= 8
+requires: LENWORD(buffer, *position) <= 1000000000 && buffer->size - *position - 8 >= LENWORD(buffer, *position)
+ensures consumes_header_and_characters: *position == \\old(*position) + 8 + \\old(LENWORD(buffer, *position))
+ensures length_from_header: data->size == \\old(LENWORD(buffer, *position))
+assigns: *data, *position
+
+@harness str_roundtrip
+    /* real pack followed by real unpack of a string of ANY length: same length, same character at the ghost position,
+       exactly the packed bytes consumed */
+    struct vec_char a, b, buf; c_ulong p0, p, q;
+    __CPROVER_assume(a.size <= 1000000000 && p0 <= buf.size && buf.size - p0 >= a.size + 8);
+    p = p0;
+    str_pack(&a, &buf, &p);
+    __CPROVER_assert(!verif_thrown && p == p0 + str_packSize(&a), "str_roundtrip/pack writes packSize bytes");
+    q = p0;
+    str_unpack(&b, &buf, &q);
+    __CPROVER_assert(!verif_thrown && q == p, "str_roundtrip/unpack consumes exactly the bytes that were packed");
+    __CPROVER_assert(b.size == a.size, "str_roundtrip/same length");
+    __CPROVER_assert(!(ghost_c < a.size) || b.data[ghost_c] == a.data[ghost_c], "str_roundtrip/same characters");
+
+''')
 w('\n')
 for n in SIZES:
     q = 'Packing<false, std::bitset<%dul> >' % n
